@@ -234,12 +234,13 @@ impl UnifiedDiff {
                         lines
                             .iter()
                             .map(|(i, l)| {
-                                Ok((
+                                // output may be arbitrary bytes, not necessarily UTF-8
+                                (
                                     *i,
-                                    String::from_utf8((l as &[u8]).trim_newlines().to_vec())?,
-                                ))
+                                    String::from_utf8_lossy((l as &[u8]).trim_newlines()).to_string(),
+                                )
                             })
-                            .collect::<Result<Vec<_>>>()?,
+                            .collect::<Vec<_>>(),
                     );
                     if self.unmatched_start.is_some() {
                         add_diff_hunk!();
